@@ -1,20 +1,46 @@
 
+val negb : bool -> bool
+
 type nat =
 | O
 | S of nat
+
+val option_map : ('a1 -> 'a2) -> 'a1 option -> 'a2 option
+
+val fst : ('a1 * 'a2) -> 'a1
+
+val snd : ('a1 * 'a2) -> 'a2
 
 val length : 'a1 list -> nat
 
 val app : 'a1 list -> 'a1 list -> 'a1 list
 
-type comparison =
-| Eq
-| Lt
-| Gt
-
-val compOpp : comparison -> comparison
-
 val add : nat -> nat -> nat
+
+val mul : nat -> nat -> nat
+
+val sub : nat -> nat -> nat
+
+module Nat :
+ sig
+  val sub : nat -> nat -> nat
+
+  val eqb : nat -> nat -> bool
+
+  val leb : nat -> nat -> bool
+
+  val ltb : nat -> nat -> bool
+
+  val max : nat -> nat -> nat
+
+  val min : nat -> nat -> nat
+
+  val divmod : nat -> nat -> nat -> nat -> nat * nat
+
+  val div : nat -> nat -> nat
+
+  val modulo : nat -> nat -> nat
+ end
 
 val nth : nat -> 'a1 list -> 'a1 -> 'a1
 
@@ -22,11 +48,9 @@ val rev : 'a1 list -> 'a1 list
 
 val map : ('a1 -> 'a2) -> 'a1 list -> 'a2 list
 
+val firstn : nat -> 'a1 list -> 'a1 list
+
 val skipn : nat -> 'a1 list -> 'a1 list
-
-val seq : nat -> nat -> nat list
-
-val repeat : 'a1 -> nat -> 'a1 list
 
 type positive =
 | XI of positive
@@ -50,33 +74,9 @@ module Pos :
 
   val add_carry : positive -> positive -> positive
 
-  val pred_double : positive -> positive
-
-  val pred_N : positive -> n
-
   val mul : positive -> positive -> positive
 
-  val iter : ('a1 -> 'a1) -> 'a1 -> positive -> 'a1
-
-  val div2 : positive -> positive
-
-  val div2_up : positive -> positive
-
-  val compare_cont : comparison -> positive -> positive -> comparison
-
-  val compare : positive -> positive -> comparison
-
   val eqb : positive -> positive -> bool
-
-  val coq_Nsucc_double : n -> n
-
-  val coq_Ndouble : n -> n
-
-  val coq_lor : positive -> positive -> positive
-
-  val coq_land : positive -> positive -> n
-
-  val ldiff : positive -> positive -> n
 
   val iter_op : ('a1 -> 'a1 -> 'a1) -> positive -> 'a1 -> 'a1
 
@@ -87,15 +87,9 @@ module Pos :
 
 module N :
  sig
-  val succ_pos : n -> positive
-
   val add : n -> n -> n
 
   val mul : n -> n -> n
-
-  val coq_lor : n -> n -> n
-
-  val ldiff : n -> n -> n
 
   val to_nat : n -> nat
 
@@ -104,35 +98,7 @@ module N :
 
 module Z :
  sig
-  val double : z -> z
-
-  val succ_double : z -> z
-
-  val pred_double : z -> z
-
-  val pos_sub : positive -> positive -> z
-
-  val add : z -> z -> z
-
   val opp : z -> z
-
-  val sub : z -> z -> z
-
-  val mul : z -> z -> z
-
-  val pow_pos : z -> positive -> z
-
-  val pow : z -> z -> z
-
-  val compare : z -> z -> comparison
-
-  val leb : z -> z -> bool
-
-  val ltb : z -> z -> bool
-
-  val geb : z -> z -> bool
-
-  val gtb : z -> z -> bool
 
   val eqb : z -> z -> bool
 
@@ -143,107 +109,139 @@ module Z :
   val of_nat : nat -> z
 
   val of_N : n -> z
-
-  val pos_div_eucl : positive -> z -> z * z
-
-  val div_eucl : z -> z -> z * z
-
-  val div : z -> z -> z
-
-  val modulo : z -> z -> z
-
-  val div2 : z -> z
-
-  val shiftl : z -> z -> z
-
-  val shiftr : z -> z -> z
-
-  val coq_land : z -> z -> z
  end
 
-val wrap32 : z -> z
+val split_at : z -> z list -> z list -> z list list * z list
 
-val tABLE : z list
+val strip_cr : z list -> z list
 
-val iNV_TABLE : z list
+val records : z -> bool -> z list -> z list list
 
-val enc_val0 : z
+val fp_init_add : nat
 
-val enc_valb0 : z
+val fp_init_min_pages : nat
 
-val enc_shift : z
+val fp_mmap_grow : nat
 
-val enc_valb_add : z
+val fp_read_grow : nat
 
-val enc_loop_bound : z
+val fp_eof_read_return : nat
 
-val enc_mask : z
+val fp_cr_byte : z
 
-val enc_valb_sub : z
+val fp_cr_subtract : nat
 
-val enc_tail_bound : z
+val fp_cr_else : nat
 
-val enc_tail_shl : z
+val rc_magic_size : nat
 
-val enc_tail_add : z
+val rc_magic_gz : z list
 
-val enc_tail_mask : z
+val rc_magic_bz : z list
 
-val enc_pad_mod : z
+val rc_magic_xz : z list
 
-val pad_char : z
+type outcome =
+| Full
+| Short of nat
+| Eintr
+| Err of z
 
-val dec_val0 : z
+type os = { os_src : z list; os_script : outcome list;
+            os_trace : (nat * z) list; os_sink : z list }
 
-val dec_valb0 : z
+val os_trace : os -> (nat * z) list
 
-val dec_pad_char : z
+val os_init : z list -> outcome list -> os
 
-val dec_reject : z
+type sysres =
+| SData of z list
+| SEintr
+| SErr of z
 
-val dec_shift : z
+val granted : outcome -> nat -> nat
 
-val dec_valb_add : z
+val next_outcome : os -> outcome * outcome list
 
-val dec_out_bound : z
+val sys_read : nat -> os -> sysres * os
 
-val dec_mask : z
+type ioerr =
+| EFuel
+| EErrno of z
+| EEndOfFile
+| EWriteZero
+| ECompressed
 
-val dec_valb_sub : z
+type 'a res =
+| Ok of 'a
+| Fail of ioerr
 
-val tbl : z -> z
+val eintr_fuel : os -> nat
 
-val inv : z -> z
+val partial_read_loop : nat -> nat -> os -> z list res * os
 
-val sel : z -> z -> z -> z
+val partial_read : nat -> os -> z list res * os
 
-val enc_drain : nat -> z -> z -> (z list * z) option
+val read_or_eof_loop : nat -> nat -> z list -> os -> z list res * os
 
-val drain_fuel : nat
+val read_or_eof : nat -> os -> z list res * os
 
-val enc_bytes : z list -> z -> z -> ((z list * z) * z) option
+type rcstate =
+| RcHeader of z list
+| RcFd
+| RcComplete
+| RcIStream
 
-val enc_pad : nat -> z list
+val is_prefix : z list -> z list -> bool
 
-val base64_encode : z list -> z list option
+val detect_magic : z list -> bool
 
-type dres =
-| DOk of z list
-| DBadChar of z
-| DLengthError
+val read_factory : os -> rcstate res * os
 
-val count_padding_rev : z list -> nat
+val rc_read : nat -> rcstate -> os -> (z list res * rcstate) * os
 
-val count_padding : z list -> nat
+type fp = { fp_buf : z list; fp_pos : nat; fp_cap : nat; fp_at_end : 
+            bool; fp_moff : nat; fp_fallback : bool; fp_mapped : bool;
+            fp_rc : rcstate; fp_os : os; fp_file : z list; fp_page : 
+            nat; fp_maps : (nat * nat) list }
 
-val dec_loop : z list -> z -> z -> dres
+val fp_os : fp -> os
 
-val base64_decode : z list -> dres
+val fp_maps : fp -> (nat * nat) list
 
-val b64_alphabet : z list
+val set_pos : fp -> nat -> fp
 
-val alpha : z -> z
+val initial_cap : nat -> nat -> nat
 
-val rfc4648 : z list -> z list
+val read_shift : fp -> fp res
 
-val strip_padding : z list -> z list
+val transition_to_read : fp -> fp res
+
+val mmap_shift : fp -> fp res
+
+val shift : fp -> fp res
+
+val fp_open_read : nat -> os -> fp res
+
+val fp_open_istream : nat -> z list -> fp
+
+val fp_open_file : nat -> nat -> z list -> nat -> outcome list -> fp res
+
+val find_idx : z -> z list -> nat option
+
+type rl =
+| RlLine of z list
+| RlEOF
+| RlFail of ioerr
+
+val read_line_loop : nat -> z -> bool -> nat -> fp -> rl * fp
+
+val pending : fp -> nat
+
+val line_fuel : fp -> nat
+
+val read_line : z -> bool -> fp -> rl * fp
+
+val read_all_loop : nat -> z -> bool -> fp -> z list list res * fp
+
+val read_all : z -> bool -> fp -> z list list res * fp
